@@ -23,10 +23,10 @@ keyed by the protected construct, so a deleted guard is a violated instance (exi
  G8  every throw in the reader / builder / osm / memory code throws a type derived from std::exception
  G9  next_utf8_codepoint: the length test precedes every advance-and-read, each case reads exactly its length
  NUL every parser call of a length-carrying TagListBuilder::add_tag overload is NUL-safe (overload rejects interior NUL,
-     or the argument provably has none)                                             -> F4 expected on the pristine tree
+     copies only up to the first NUL, or the argument provably has none)             (found F4; fixed in /repo)
  TS  XML state machine: add_comment obligation closed at the end of the element that opened it, closer cannot run a
      second time; sibling sub-builders are reset before another one is opened / used; end handlers reset every
-     sub-builder before the object builder and commit afterwards                    -> F3 expected on the pristine tree
+     sub-builder before the object builder and commit afterwards                    (found F3; fixed in /repo)
  A1  abort / terminate / exit call sites are the frozen who-may-call list
 
 Clauses of DESIGN.md section 5/C03 not implemented here, and why:
@@ -45,27 +45,17 @@ termination / hangs, equivalence of assert-on and NDEBUG builds, decompressor in
 """
 from ..c03_util import (classify_edges, upper_bound, lower_bound, equals, truthy, reaches_unchecked, describe, local_roots,
                         starts_for, definitions, elem_of, sig, var_name, cmp_parts, CursorFlow, UNCHECKED, helper_barriers,
-                        matching_conds, deep_roots, rooted_in, guarded, guarded_ip, resolve_local, single_init)
+                        matching_conds, deep_roots, rooted_in, guarded, guarded_ip, resolve_local, single_init, edge_atoms)
 from ..excflow import Esc, catch_alls, handler_entry_block, must_pass
 from ..errdisc import guards
 from ..flow import path_search
 
 KNOWN = [
-    # (rule, key, explanation) -- genuine defects of the pristine tree (DESIGN.md section 7), reported with R.bad
-    ('NUL-tag-strings-have-no-interior-nul',
-     'osmium::io::detail::PBFPrimitiveBlockDecoder::build_tag_list#add_tag(char*,size_t,char*,size_t)',
-     'F4: a PBF string-table entry with an interior NUL ("a\\0b") used as tag key/value is copied with its length by '
-     'add_tag(ptr,len,ptr,len); Tag::next() walks by strchr and desynchronises, running off the buffer'),
-    ('NUL-tag-strings-have-no-interior-nul',
-     'osmium::io::detail::PBFPrimitiveBlockDecoder::build_tag_list_from_dense_nodes#add_tag(char*,size_t,char*,size_t)',
-     'F4: same for dense-node tags'),
-    ('TS-comment-obligation-closed',
-     'osmium::io::detail::XMLParser::end_element#context::comment:add_comment',
-     'F3: <comment> without <text>: add_comment is never followed by add_comment_text, the comment keeps text_size 0 and no '
-     'padding; traversing the delivered changeset leaves the item (segfault with NDEBUG, assert otherwise)'),
-    ('TS-comment-closer-once',
-     'osmium::io::detail::XMLParser::end_element#context::text:add_comment_text',
-     'F3: <comment> with two <text> children: the second add_comment_text dereferences m_comment == nullptr'),
+    # (rule, key, explanation) -- genuine defects of the tree a rule reports with R.bad.  F3 (XML <comment> without / with two
+    # <text>) and F4 (PBF string-table entry with an interior NUL used as tag key/value) were reported here by
+    # TS-comment-obligation-closed / TS-comment-closer-once and NUL-tag-strings-have-no-interior-nul; both were fixed in /repo
+    # (7c40db3 "XML parser adds exactly one text to each changeset comment", 61641d6 "TagListBuilder stores keys and values
+    # only up to the first NUL byte") and the rules are silent on the fixed shapes; their reverts are seeded mutants.
 ]
 
 EXPLANATION = (
@@ -540,7 +530,8 @@ def _is_ptr_t(t):
 
 
 def g5_o5m(fb, R):
-    fns = [f for f in fb.functions if f.cls in (O5M, RT) and f.has_cfg and not f.is_lambda]
+    files = {f.file for f in fb.functions if f.cls == O5M}
+    fns = [f for f in fb.functions if (f.cls in (O5M, RT) or f.file in files) and f.has_cfg and not f.is_lambda]
     if not fns:
         R.broken('no O5mParser functions found')
         return
@@ -628,13 +619,40 @@ def g5_o5m(fb, R):
         w = reaches_unchecked(fn, ['entry'], [cp['id']], pe, barriers=[c['id'] for c in resizes])
         R.check(w is None, rule, fn.q + '#table-allocated', fn.loc(cp['id']),
                 'the copy into the table can run while the table is still empty: %s' % describe(fn, w))
-        # slot arithmetic: resize(entry_size * entries); wrap test against the same number of entries
-        wraps = [fn.const_value(cmp_parts(fn, c)[2]) for c in _matching_conds(fn, lambda f, x: 'T' if cmp_parts(f, x) and cmp_parts(f, x)[0] == '=='
-                                                                              and any(f.nodes[y].get('k') == 'unop' and f.nodes[y].get('op') == '++' for y in f.subtree(cmp_parts(f, x)[1])) else None)]
+        # slot arithmetic: the largest value the slot counter can have when the copy runs, times the slot size, must lie
+        # inside resize(...).  `++c == N` / `++c; if (c == N)` keep c in [0, N-1]; `c++ == N` (old value compared) or
+        # `++c > N` let it reach N, and so on.
+        counter = None
+        for a2 in fn.nodes[dst[0]].get('args', []):
+            if a2 is not None:
+                for r in local_roots(fn, a2):
+                    if r[0] == 'field':
+                        counter = r
+        wraps = []
+        for blk in fn.blocks.values():
+            for (at, _truth, _idx) in edge_atoms(fn, blk):
+                pc = cmp_parts(fn, at)
+                if pc is None or counter is None:
+                    continue
+                op, l, r = pc
+                if local_roots(fn, l) == {counter} and fn.const_value(r) is not None:
+                    side, bound = l, fn.const_value(r)
+                elif local_roots(fn, r) == {counter} and fn.const_value(l) is not None:
+                    side, bound = r, fn.const_value(l)
+                    op = {'<': '>', '<=': '>=', '>': '<', '>=': '<=', '==': '==', '!=': '!='}[op]
+                else:
+                    continue
+                if op not in ('==', '>=', '>'):
+                    continue
+                postfix = any(fn.nodes[y].get('k') == 'unop' and fn.nodes[y].get('op') == '++' and fn.nodes[y].get('postfix') for y in fn.subtree(side))
+                need = bound + (1 if postfix else 0) + (1 if op == '>' else 0)
+                if need not in wraps:
+                    wraps.append(need)
         sizes = [fn.const_value(c['args'][0]) for c in resizes if c.get('args')]
-        ok = bool(resizes) and bool(wraps) and entry_size is not None and all(s is not None and w_ is not None and s >= entry_size * w_ for s in sizes for w_ in wraps)
+        ok = bool(resizes) and bool(wraps) and entry_size is not None and all(s is not None and s >= entry_size * w_ for s in sizes for w_ in wraps)
         R.check(ok, rule, fn.q + '#slot-arithmetic', fn.site,
-                'table size %s, slot size %s and wrap-around count %s do not agree (table must hold wrap count * slot size bytes)' % (sizes, entry_size, wraps))
+                'table size %s, slot size %s and the number of slots the counter can address %s do not agree (the counter must wrap before '
+                'counter * slot size reaches the table size)' % (sizes, entry_size, wraps))
     # ---- (d) dataset framing in decode_data / decode_header
     rule = 'G5-o5m-bytes-available'
     eba = O5M + '::ensure_bytes_available'
@@ -711,7 +729,7 @@ def g5_o5m(fb, R):
         for fn in fns:
             cf = CursorFlow(fn, S).run()
             flows[id(fn)] = cf
-            new = {'pre': frozenset(cf.pre), 'ret': bool(cf.ret_ok)}
+            new = {'pre': frozenset(cf.pre), 'ret': bool(cf.ret_ok), 'post': frozenset(cf.post), 'chk': frozenset(cf.chk)}
             if S.get(fn.usr) != new:
                 S[fn.usr] = new
                 changed = True
@@ -803,7 +821,7 @@ def g6_member_types(fb, R):
         for n in fn.all_nodes():
             if n.get('k') != 'cast' or n.get('toC') != 'osmium::item_type' or fn.const_value(n['id']) is not None:
                 continue
-            vs = {r for r in local_roots(fn, n['sub']) if r[0] == 'var'}
+            vs = _var_roots(fn, n['sub'])
             if len(vs) != 1:
                 continue
             sub = fn.sn(n['sub'])
@@ -811,17 +829,15 @@ def g6_member_types(fb, R):
                 continue
             n1 += 1
             d = list(vs)[0][1]
-            k = _addend(fn, n['sub'], d)
+            k = _affine(fn, n['sub'], d)
             key = '%s#cast-to-item_type' % fn.q
             if k is None:
                 R.bad(rule, key, fn.loc(n['id']), 'cast of a computed value to item_type whose relation to the checked variable is not v + const')
                 continue
-            up = classify_edges(fn, upper_bound(_rooted_in(vs), lambda f, x, k=k: f.const_value(x) is not None and f.const_value(x) + k <= it['relation']))
-            lo = classify_edges(fn, lower_bound(_rooted_in(vs), lambda f, x, k=k: f.const_value(x) is not None and f.const_value(x) + k >= it['node'] - 1))
-            w1 = reaches_unchecked(fn, starts_for(fn, d), [n['id']], up)
-            w2 = reaches_unchecked(fn, starts_for(fn, d), [n['id']], lo)
+            w1 = guarded_ip(fb, fn, starts_for(fn, d), [n['id']], vs, _affine_bound('upper', k, lambda v: v <= it['relation']))
+            w2 = guarded_ip(fb, fn, starts_for(fn, d), [n['id']], vs, _affine_bound('lower', k, lambda v: v >= it['node'] - 1))
             R.check(w1 is None and w2 is None, rule, key, fn.loc(n['id']),
-                    'member type from the file is cast to item_type without a range test (node..relation): %s' % describe(fn, w1 or w2))
+                    'member type from the file is cast to item_type without a range test (node..relation): %s' % _ipd(w1 or w2))
     # (2) nwr_index_to_item_type(v - k) in the parsers
     n2 = 0
     for fn in fb.functions:
@@ -831,22 +847,20 @@ def g6_member_types(fb, R):
             if c.get('k') != 'call' or c.get('q') != 'osmium::nwr_index_to_item_type' or not c.get('args'):
                 continue
             a = c['args'][0]
-            vs = {r for r in local_roots(fn, a) if r[0] == 'var'}
+            vs = _var_roots(fn, a)
             if len(vs) != 1:
                 continue
             n2 += 1
             d = list(vs)[0][1]
-            k = _addend(fn, a, d)
+            k = _affine(fn, a, d)
             key = '%s#nwr_index_to_item_type' % fn.q
             if k is None:
                 R.bad(rule, key, fn.loc(c['id']), 'index handed to nwr_index_to_item_type is not v + const of a checked variable')
                 continue
-            up = classify_edges(fn, upper_bound(_rooted_in(vs), lambda f, x, k=k: f.const_value(x) is not None and f.const_value(x) + k <= 2))
-            lo = classify_edges(fn, lower_bound(_rooted_in(vs), lambda f, x, k=k: f.const_value(x) is not None and f.const_value(x) + k >= -1))
-            w1 = reaches_unchecked(fn, starts_for(fn, d), [c['id']], up)
-            w2 = reaches_unchecked(fn, starts_for(fn, d), [c['id']], lo)
+            w1 = guarded_ip(fb, fn, starts_for(fn, d), [c['id']], vs, _affine_bound('upper', k, lambda v: v <= 2))
+            w2 = guarded_ip(fb, fn, starts_for(fn, d), [c['id']], vs, _affine_bound('lower', k, lambda v: v >= -1))
             R.check(w1 is None and w2 is None, rule, key, fn.loc(c['id']),
-                    'member type character is converted without a range test (0..2): %s' % describe(fn, w1 or w2))
+                    'member type character is converted without a range test (0..2): %s' % _ipd(w1 or w2))
     # (3) add_member(type, ...) with a type local produced by char_to_item_type: allowed-set test
     n3 = 0
     for fn in fb.functions:
@@ -865,14 +879,84 @@ def g6_member_types(fb, R):
                 continue
             n3 += 1
             vs = {('var', d)}
-            pe = classify_edges(fn, equals(_rooted_in(vs), _nwr_values(fn, it), want_equal=True))
             # the local may be assigned inside a lambda (XML attribute callback): every definition site counts, and the
             # declaration itself (initial value `undefined`) as well
-            starts = ['entry']
-            w = reaches_unchecked(fn, starts, uses, pe)
+            w = guarded(fb, fn, ['entry'], uses, vs, EQ(_nwr_values(fn, it), True))
             R.check(w is None, rule, '%s#add_member-type' % fn.q, fn.loc(uses[0]),
                     'member type decoded by char_to_item_type reaches add_member without the node/way/relation test: %s' % describe(fn, w))
     R.note('G6: %d casts, %d index conversions, %d allowed-set sites' % (n1, n2, n3))
+
+
+def _affine_bound(kind, k_use, ok):
+    """classifier factory for `use = v + k_use` protected by a comparison of any `v + k_cmp` (named local, inline
+    arithmetic) with a constant B: the constant is translated to the use (B - k_cmp + k_use) before `ok` judges it."""
+    def mk(is_subject):
+        def adjusted(fn, side, other):
+            vs = _var_roots(fn, side)
+            b = fn.const_value(other)
+            if len(vs) != 1 or b is None:
+                return None
+            kc = _affine(fn, side, list(vs)[0][1])
+            if kc is None:
+                return None
+            return b - kc + k_use
+
+        def classify(fn, cid):
+            p = cmp_parts(fn, cid)
+            if p is None:
+                return None
+            op, l, r = p
+            if is_subject(fn, l) and fn.const_value(r) is not None:
+                adj = adjusted(fn, l, r)
+            elif is_subject(fn, r) and fn.const_value(l) is not None:
+                adj = adjusted(fn, r, l)
+                op = {'<': '>', '<=': '>=', '>': '<', '>=': '<=', '==': '==', '!=': '!='}[op]
+            else:
+                return None
+            if adj is None or not ok(adj):
+                return None
+            if kind == 'upper':
+                return 'F' if op in ('>', '>=') else 'T' if op in ('<', '<=') else None
+            return 'F' if op in ('<', '<=') else 'T' if op in ('>', '>=') else None
+
+        def on_switch(fn, cond, label):
+            if not is_subject(fn, cond) or fn.const_value(label) is None:
+                return False
+            adj = adjusted(fn, cond, label)
+            return adj is not None and ok(adj)
+        classify.on_switch = on_switch
+        return classify
+    return mk
+
+
+def _affine(fn, nid, d, depth=0):
+    """k if the expression is (var d) + k with casts and named pure locals looked through, else None."""
+    x = fn.strip(nid)
+    n = fn.nodes.get(x)
+    hops = 0
+    while n is not None and n.get('k') == 'cast' and hops < 6:
+        x = fn.strip(n['sub'])
+        n = fn.nodes.get(x)
+        hops += 1
+    if n is None or depth > 4:
+        return None
+    if n.get('k') == 'var' and n.get('d') == d:
+        return 0
+    if n.get('k') == 'var' and n.get('vk') == 'local':
+        init = single_init(fn, n['d'])
+        return _affine(fn, init, d, depth + 1) if init is not None else None
+    if n.get('k') == 'binop' and n.get('op') in ('+', '-'):
+        c = fn.const_value(n['rhs'])
+        if c is not None:
+            k = _affine(fn, n['lhs'], d, depth + 1)
+            if k is not None:
+                return k + (c if n['op'] == '+' else -c)
+        c = fn.const_value(n['lhs'])
+        if c is not None and n['op'] == '+':
+            k = _affine(fn, n['rhs'], d, depth + 1)
+            if k is not None:
+                return k + c
+    return None
 
 
 def _addend(fn, nid, d):
@@ -996,11 +1080,19 @@ def g7_expat(fb, R, esc):
             stops = []
             for n in h.all_nodes():
                 if n.get('k') == 'call' and h.in_range(n['id'], hd['b'], hd['e']):
-                    if n.get('q') == 'XML_StopParser':
+                    if _is_stop(h, n):
                         stops.append(n['id'])
-                    if n.get('op') == '=' and any(h.nodes[x].get('q') == 'std::current_exception' for x in h.subtree(n['id'])) \
-                            and n.get('recv') is not None and h.is_this_member(n['recv']):
+                    if _is_store(h, n):
                         stores.append(n['id'])
+                    # the same two actions inside a member helper called from the handler
+                    for g in fb.by_usr.get(n.get('u'), [])[:1]:
+                        if g.has_cfg and (g.cls or '').startswith(XMLP):
+                            gs = [elem_of(g, m['id']) for m in g.all_nodes() if m.get('k') == 'call' and _is_store(g, m)]
+                            gp = [elem_of(g, m['id']) for m in g.all_nodes() if m.get('k') == 'call' and _is_stop(g, m)]
+                            if gs and must_pass(g, g.entry, gs) is None:
+                                stores.append(n['id'])
+                            if gp and must_pass(g, g.entry, gp) is None:
+                                stops.append(n['id'])
             w1 = must_pass(h, b, [elem_of(h, x) for x in stores]) if stores else ['no store']
             w2 = must_pass(h, b, [elem_of(h, x) for x in stops]) if stops else ['no stop']
             R.check(w1 is None and w2 is None, 'G7-expat-exception-stored-and-parser-stopped', '%s#catch-all' % h.q, h.site,
@@ -1050,9 +1142,9 @@ def g7_expat(fb, R, esc):
             if p is None:
                 return None
             op, l, r = p
-            if f.strip(l) == pc['id']:
+            if resolve_local(f, l) == pc['id']:
                 other = r
-            elif f.strip(r) == pc['id']:
+            elif resolve_local(f, r) == pc['id']:
                 other = l
             else:
                 return None
@@ -1104,6 +1196,15 @@ def g7_expat(fb, R, esc):
         R.check(ok, 'G7-expat-parse-error-rethrows-stored-first', key, fn.loc(pc['id']), msg)
 
 
+def _is_stop(f, n):
+    return n.get('q') == 'XML_StopParser'
+
+
+def _is_store(f, n):
+    return n.get('op') == '=' and any(f.nodes[x].get('q') == 'std::current_exception' for x in f.subtree(n['id'])) \
+        and n.get('recv') is not None and f.is_this_member(n['recv'])
+
+
 def _reads_exception_ptr(fn, cid):
     for x in fn.subtree(cid):
         n = fn.nodes[x]
@@ -1127,27 +1228,44 @@ def g9_utf8(fb, R):
                 s = fn.sn(n['sub'])
                 if s is not None and s.get('k') == 'var' and s.get('vk') == 'local' and _is_ptr_t(s.get('t')):
                     its.add(s['d'])
-        if len(its) != 1 or len(fn.switches) != 1:
-            R.broken('next_utf8_codepoint: expected one byte cursor and one switch over the sequence length')
+        if len(its) != 1:
+            R.broken('next_utf8_codepoint: expected exactly one byte cursor')
             continue
         it = list(its)[0]
-        sw = next((b for b in fn.blocks.values() if b.get('termcls') == 'SwitchStmt'), None)
-        lroot = [r for r in local_roots(fn, sw['cond']) if r[0] == 'var'] if sw else []
-        if len(lroot) != 1:
-            R.broken('next_utf8_codepoint: switch condition is not a single local')
-            continue
-        ln = lroot[0]
         ends = {('var', p['d']) for p in fn.params if _is_ptr_t(p['tC']) and not p['tC'].endswith('**')}
 
         def is_dist(f, x):
-            n = f.sn(x)
+            n = f.nodes.get(_unwrap(f, x))
             if n is None:
                 return False
-            r = local_roots(f, x)
+            r = deep_roots(f, n['id'])
             if ('var', it) not in r or not (r & ends) or not r <= (ends | {('var', it)}):
                 return False
             return (n.get('k') == 'call' and n.get('q') == 'std::distance') or (n.get('k') == 'binop' and n.get('op') == '-')
-        pe = classify_edges(fn, lower_bound(is_dist, _rooted_in({ln})))
+
+        def is_other(f, x):
+            r = deep_roots(f, x)
+            return bool(r) and ('var', it) not in r and not (r & ends)
+
+        def is_advanced(f, x):        # it + length
+            n = f.nodes.get(_unwrap(f, x))
+            return n is not None and n.get('k') == 'binop' and n.get('op') == '+' and ('var', it) in deep_roots(f, n['id']) \
+                and not (deep_roots(f, n['id']) & ends)
+
+        def is_end(f, x):
+            r = deep_roots(f, x)
+            return bool(r) and r <= ends
+        cl1 = lower_bound(is_dist, is_other)            # distance(it, end) >= length
+        cl2 = upper_bound(is_advanced, is_end)          # it + length <= end
+        pe = classify_edges(fn, cl1) | classify_edges(fn, cl2)
+        # the sequence length: what the distance is compared with
+        lens = set()
+        for c in matching_conds(fn, cl1) + matching_conds(fn, cl2):
+            p = cmp_parts(fn, c)
+            for side in (p[1], p[2]):
+                for r in deep_roots(fn, side):
+                    if r[0] == 'var' and r[1] != it and r not in ends:
+                        lens.add(r)
         # continuation reads: dereferences of the cursor after an increment
         targets = []
         for b in fn.blocks.values():
@@ -1164,40 +1282,59 @@ def g9_utf8(fb, R):
         w = reaches_unchecked(fn, ['entry'], targets, pe)
         R.check(w is None, 'G9-utf8-length-test-before-continuation', fn.q + '#continuation-bytes', fn.site,
                 'continuation bytes are read without first passing distance(it, end) >= length (read past the end of a truncated string): %s' % describe(fn, w))
-        # each case reads at most its length
-        bad = []
-        ncase = 0
+        # each sequence length k reads at most k - 1 continuation bytes: regions entered with length == k (switch case or
+        # equality test), counted over the blocks only reachable through that entry
+        if not lens:
+            sw = next((b for b in fn.blocks.values() if b.get('termcls') == 'SwitchStmt'), None)
+            if sw is not None:
+                lens = {r for r in deep_roots(fn, sw['cond']) if r[0] == 'var'}
+        entries = []        # (k, successor block)
+        is_len = _rooted_in(lens) if lens else (lambda f, x: False)
         for b in fn.blocks.values():
-            lab = b.get('label') or {}
-            if 'case' not in lab:
+            if 'cond' not in b:
                 continue
-            k = fn.const_value(lab['case'])
-            if k is None:
-                continue
-            ncase += 1
-            incs = 0
-            seen = set()
-            work = [b['id']]
-            while work:
-                x = work.pop()
-                if x in seen:
+            if b.get('termcls') == 'SwitchStmt':
+                if not is_len(fn, b['cond']):
                     continue
-                seen.add(x)
-                blk = fn.blocks[x]
-                for e in blk['elems']:
-                    n = fn.nodes[e]
+                for s2 in fn.succs(b['id']):
+                    lab = fn.blocks[s2].get('label') or {}
+                    if 'case' in lab and fn.const_value(lab['case']) is not None:
+                        entries.append((fn.const_value(lab['case']), s2))
+            elif len(b['succs']) == 2:
+                for (a, truth, idx) in edge_atoms(fn, b):
+                    p = cmp_parts(fn, a)
+                    if p is None or p[0] not in ('==', '!='):
+                        continue
+                    if is_len(fn, p[1]) and fn.const_value(p[2]) is not None:
+                        k = fn.const_value(p[2])
+                    elif is_len(fn, p[2]) and fn.const_value(p[1]) is not None:
+                        k = fn.const_value(p[1])
+                    else:
+                        continue
+                    if (p[0] == '==') == truth and b['succs'][idx] is not None:
+                        entries.append((k, b['succs'][idx]))
+        bad = []
+        dom = fn.dominators()
+        for (k, e) in entries:
+            region = {x for x in fn.blocks if e in dom.get(x, ()) or x == e}
+            if (fn.blocks[e].get('label') or {}).get('case') is not None:
+                # fall-through into the next case label would read that case's bytes as well
+                for x in list(region):
+                    for s2 in fn.succs(x):
+                        if s2 not in region and (fn.blocks[s2].get('label') or {}).get('case') is not None and fn.blocks[x].get('termcls') != 'BreakStmt':
+                            bad.append('case %d falls through' % k)
+            incs = 0
+            for x in region:
+                for el in fn.blocks[x]['elems']:
+                    n = fn.nodes[el]
                     if n.get('k') == 'unop' and n.get('op') == '++' and (fn.sn(n['sub']) or {}).get('d') == it:
                         incs += 1
-                if blk.get('termcls') == 'BreakStmt':
-                    continue
-                for s2 in fn.succs(x):
-                    if (fn.blocks[s2].get('label') or {}).get('case') is None and s2 != fn.exit:
-                        work.append(s2)
-                    elif (fn.blocks[s2].get('label') or {}).get('case') is not None:
-                        bad.append('case %d falls through' % k)
-            if incs > k - 1:
-                bad.append('case %d advances %d times (at most %d continuation bytes were tested)' % (k, incs, k - 1))
-        R.check(not bad and ncase > 0, 'G9-utf8-case-reads-its-length', fn.q + '#cases', fn.site, '; '.join(bad) or 'no case labels found')
+            if incs > max(k - 1, 0):
+                bad.append('length %d advances %d times (at most %d continuation bytes were tested)' % (k, incs, k - 1))
+        if not entries:
+            R.broken('next_utf8_codepoint: no per-length regions (switch cases / equality tests on the sequence length) found')
+            continue
+        R.check(not bad, 'G9-utf8-case-reads-its-length', fn.q + '#cases', fn.site, '; '.join(bad))
 
 
 # ------------------------------------------------------------------------------------------------ NUL layout
@@ -1397,17 +1534,22 @@ def _nonzero_char(g, aid, at):
     v = g.const_value(aid)
     if v is not None:
         return v != 0
-    n = g.sn(aid)
+    n = g.nodes.get(_unwrap(g, aid))
     if n is not None and n.get('k') == 'unop' and n.get('op') == '*':
         pv = local_roots(g, n['sub'])
         for (cn, sense, _b) in guards(g, at):
             p = cmp_parts(g, cn)
             if p is None:
-                continue
-            l = g.sn(p[1])
-            if l is not None and l.get('k') == 'unop' and l.get('op') == '*' and local_roots(g, l['sub']) == pv and g.const_value(p[2]) == 0:
-                if (p[0] == '==' and not sense) or (p[0] == '!=' and sense):
+                # plain truth test of the character: `if (c)` / `if (!*s) break;`
+                l = g.nodes.get(_unwrap(g, cn))
+                if l is not None and l.get('k') == 'unop' and l.get('op') == '*' and local_roots(g, l['sub']) == pv and sense:
                     return True
+                continue
+            for (a, b) in ((p[1], p[2]), (p[2], p[1])):
+                l = g.nodes.get(_unwrap(g, a))
+                if l is not None and l.get('k') == 'unop' and l.get('op') == '*' and local_roots(g, l['sub']) == pv and g.const_value(b) == 0:
+                    if (p[0] == '==' and not sense) or (p[0] == '!=' and sense):
+                        return True
     return False
 
 
@@ -1530,34 +1672,90 @@ _CLOSER = 'osmium::builder::ChangesetDiscussionBuilder::add_comment_text'
 
 
 class _Cases:
-    """case regions of the switch over the context stack in one handler function."""
+    """Regions of an element handler that run for one value of the context enumeration: `case context::x:` of a switch
+    (with fall-through) or the branch taken when an equality test against `context::x` (or a disjunction of such tests)
+    succeeds in an if-chain."""
 
     def __init__(self, fn):
         self.fn = fn
-        self.label_block = {}       # enumerator name -> block id
+        self.entries = {}           # enumerator name -> [(entry block id, 'label' | 'branch')]
+        negative = {}               # enumerator name -> blocks that run only when the context is NOT that value
+        dom = fn.dominators()
         for b in fn.blocks.values():
             lab = b.get('label') or {}
             if 'case' in lab:
                 n = fn.sn(lab['case'])
-                if n is not None and n.get('k') == 'var' and n.get('vk') == 'enumconst':
-                    self.label_block[n['name']] = b['id']
+                if n is not None and n.get('k') == 'var' and n.get('vk') == 'enumconst' and '::context::' in (n.get('q') or ''):
+                    self.entries.setdefault(n['name'], []).append((b['id'], 'label'))
+        for b in fn.blocks.values():
+            if 'cond' not in b or len(b['succs']) != 2 or b.get('termcls') == 'SwitchStmt':
+                continue
+            for idx, sense in ((0, True), (1, False)):
+                names = self._names(b['cond'], sense)
+                s2 = b['succs'][idx]
+                if names and s2 is not None and len(fn.preds().get(s2, [])) == 1:
+                    for nm in names:
+                        self.entries.setdefault(nm, []).append((s2, 'branch'))
+                    other = b['succs'][1 - idx]
+                    if len(names) == 1 and other is not None and len(fn.preds().get(other, [])) == 1:
+                        nm = list(names)[0]
+                        negative.setdefault(nm, set()).update(x for x in fn.blocks if x == other or other in dom.get(x, ()))
+        # a `case x:` that can only be reached after `ctx == x` failed is dead
+        for nm, lst in self.entries.items():
+            self.entries[nm] = [(e, k) for (e, k) in lst if not (k == 'label' and e in negative.get(nm, ()))] or lst
+        self.label_block = {nm: lst[0][0] for nm, lst in self.entries.items() if lst}
         self._region = {}
 
+    def _names(self, cond, sense, depth=0):
+        """enumerator names N such that `cond == sense` implies context in N, else None."""
+        fn = self.fn
+        c = fn.strip(cond)
+        n = fn.nodes.get(c)
+        if n is None or depth > 10:
+            return None
+        if n.get('k') == 'unop' and n.get('op') == '!':
+            return self._names(n['sub'], not sense, depth + 1)
+        if n.get('k') == 'binop' and n.get('op') in ('&&', '||'):
+            l = self._names(n['lhs'], sense, depth + 1)
+            r = self._names(n['rhs'], sense, depth + 1)
+            both_known = (n['op'] == '&&') == sense
+            if both_known:
+                return l or r
+            return (l | r) if (l and r) else None
+        p = cmp_parts(fn, c)
+        if p is None or p[0] not in ('==', '!=') or (p[0] == '==') != sense:
+            return None
+        for side in (p[1], p[2]):
+            m = fn.sn(side)
+            if m is not None and m.get('k') == 'var' and m.get('vk') == 'enumconst' and '::context::' in (m.get('q') or ''):
+                return {m['name']}
+        return None
+
+    def starts(self, name):
+        return [e for (e, _k) in self.entries.get(name, [])]
+
     def region(self, name):
-        """blocks executed for `case name` (through fall-through), up to and including the block that breaks / returns / throws."""
+        """blocks executed for context `name`, up to and including the block that breaks / returns / throws."""
         if name in self._region:
             return self._region[name]
         fn = self.fn
         out = set()
-        work = [self.label_block[name]] if name in self.label_block else []
-        while work:
-            b = work.pop()
-            if b in out or b == fn.exit:
-                continue
-            out.add(b)
-            if fn.blocks[b].get('termcls') == 'BreakStmt':
-                continue
-            work.extend(fn.succs(b))
+        dom = fn.dominators()
+        for (e, kind) in self.entries.get(name, []):
+            if kind == 'branch':
+                out |= {x for x in fn.blocks if x != fn.exit and (x == e or e in dom.get(x, ()))}
+            else:
+                seen = set()
+                work = [e]
+                while work:
+                    b = work.pop()
+                    if b in seen or b == fn.exit:
+                        continue
+                    seen.add(b)
+                    if fn.blocks[b].get('termcls') == 'BreakStmt':
+                        continue
+                    work.extend(fn.succs(b))
+                out |= seen
         self._region[name] = out
         return out
 
@@ -1585,36 +1783,118 @@ def _builder_fields(fb):
     return out
 
 
-def _field_events(fb, fn, fields, depth=1):
-    """[(kind, field, node id, extra)] kind in open/reset/use; calls of XMLParser methods contribute their own opens/uses
-    (one level) at the call node."""
+class _Ev:
+    """one protocol event: kind in open / reset / use / commit / push / opener / closer, on builder member `field`, at node
+    `node` of the analysed function; `inner` = (callee Fn, node in the callee) when it happens inside a member helper."""
+    __slots__ = ('kind', 'field', 'node', 'extra', 'inner')
+
+    def __init__(self, kind, field, node, extra=None, inner=None):
+        self.kind, self.field, self.node, self.extra, self.inner = kind, field, node, extra, inner
+
+
+def _context_pushed(fn, c):
+    if c.get('k') == 'call' and _method_name(c.get('q', '')) == 'push_back' and c.get('args'):
+        a = fn.sn(c['args'][0])
+        if a is not None and a.get('k') == 'var' and a.get('vk') == 'enumconst' and '::context::' in (a.get('q') or ''):
+            return a['name']
+    return None
+
+
+def _field_events(fb, fn, fields, depth=2):
+    """protocol events of fn; member helpers of XMLParser contribute theirs at the call node (one level): obligations
+    (open / use / opener / push) whenever they can happen, discharges (reset / commit / closer) only when they happen on
+    every normal path through the helper."""
     ev = []
     for c in fn.all_nodes():
         if c.get('k') != 'call' or 'q' not in c:
             continue
         f = _recv_field(fn, c)
         name = _method_name(c['q'])
-        if f in fields:
+        pushed = _context_pushed(fn, c)
+        if pushed is not None:
+            ev.append(_Ev('push', None, c['id'], pushed))
+        elif c['q'] == 'osmium::memory::Buffer::commit':
+            ev.append(_Ev('commit', None, c['id']))
+        elif f in fields:
             rn = fn.sn(c['recv']) if c.get('recv') is not None else None
             direct = rn is not None and rn.get('k') == 'member' and rn.get('field')
             if direct and name == 'reset' and c['q'].startswith('std::unique_ptr'):
                 has_arg = any(a is not None and fn.const_value(a) is None and (fn.sn(a) or {}).get('k') != 'lit' for a in c.get('args', []))
-                ev.append(('open' if has_arg else 'reset', f, c['id'], None))
+                ev.append(_Ev('open' if has_arg else 'reset', f, c['id']))
             elif direct and c.get('op') == '=' and c['q'].startswith('std::unique_ptr'):
                 mk = [fn.nodes[x] for a in c.get('args', []) if a is not None for x in fn.subtree(a)
                       if fn.nodes[x].get('k') == 'call' and fn.nodes[x].get('q') in ('std::make_unique',) or fn.nodes[x].get('k') == 'new']
                 if mk:
-                    ev.append(('open', f, c['id'], mk[0]))
+                    ev.append(_Ev('open', f, c['id'], mk[0]))
                 else:
-                    ev.append(('reset', f, c['id'], None))
+                    ev.append(_Ev('reset', f, c['id']))
             elif not c['q'].startswith('std::unique_ptr') and (c.get('rcls') or '').startswith('osmium::builder::'):
-                ev.append(('use', f, c['id'], c['q']))
+                kind = 'opener' if c['q'] == _OPENER else 'closer' if c['q'] == _CLOSER else None
+                ev.append(_Ev('use', f, c['id'], c['q']))
+                if kind:
+                    ev.append(_Ev(kind, f, c['id'], c['q']))
         elif depth > 0 and c.get('rcls') == XMLP and c.get('u'):
             for g in fb.by_usr.get(c['u'], [])[:1]:
-                for (k2, f2, _n2, x2) in _field_events(fb, g, fields, depth - 1):
-                    if k2 in ('open', 'use'):
-                        ev.append((k2, f2, c['id'], x2))
+                if not g.has_cfg:
+                    continue
+                for e2 in _field_events(fb, g, fields, depth - 1):
+                    if e2.kind in ('reset', 'commit', 'closer'):
+                        el = elem_of(g, e2.node)
+                        if el is None or must_pass(g, g.entry, [el]) is not None:
+                            continue
+                    ev.append(_Ev(e2.kind, e2.field, c['id'], e2.extra, (g, e2.node)))
     return ev
+
+
+def _before(fn, a, b):
+    """event a always happens before event b"""
+    if a.node != b.node:
+        return fn.elem_dominates(a.node, b.node)
+    if a.inner is not None and b.inner is not None and a.inner[0] is b.inner[0]:
+        return a.inner[0].elem_dominates(a.inner[1], b.inner[1])
+    return False
+
+
+def _is_open_test(fn, cid, fields):
+    """the condition is a test of protocol state: a bool / pointer member (flag, `m_comment`-like pointer), or a query on
+    one of the builder members -- as opposed to a test of the data (text empty, element name)."""
+    x = cid
+    hops = 0
+    while hops < 6:
+        hops += 1
+        n = fn.sn(x)
+        if n is None:
+            return False
+        if n.get('k') == 'unop' and n.get('op') == '!':
+            x = n['sub']
+            continue
+        if n.get('k') == 'member' and n.get('field') and fn.is_this_member(x):
+            t = n.get('t') or ''
+            return t in ('bool', 'const bool') or t.endswith('*') or n['name'] in fields
+        if n.get('k') == 'call':
+            f = _recv_field(fn, n)
+            if f in fields:
+                return True
+            if n.get('recv') is not None and _method_name(n.get('q', '')) in ('(conv)', 'operator bool', 'load'):
+                x = n['recv']
+                continue
+            return False
+        if n.get('k') == 'binop' and n.get('op') in ('==', '!='):
+            if fn.const_value(n['rhs']) is not None or (fn.sn(n['rhs']) or {}).get('null'):
+                x = n['lhs']
+                continue
+            return False
+        return False
+    return False
+
+
+def _gate_texts(fn, ev):
+    """canonical texts of the read_types() conditions under which an event happens (outer function and helper)."""
+    out = {fn.expr(cn) for (cn, sense, _b) in guards(fn, ev.node) if sense and 'read_types' in fn.expr(cn)}
+    if ev.inner is not None:
+        g, n = ev.inner
+        out |= {g.expr(cn) for (cn, sense, _b) in guards(g, n) if sense and 'read_types' in g.expr(cn)}
+    return out
 
 
 def ts_xml(fb, R):
@@ -1630,55 +1910,52 @@ def ts_xml(fb, R):
     sfn, efn = starts[0], ends[0]
     sc, ec = _Cases(sfn), _Cases(efn)
     if not sc.label_block or not ec.label_block:
-        R.broken('XMLParser: no switch over the context enumeration found in the element handlers')
+        R.broken('XMLParser: no dispatch over the context enumeration (switch or equality chain) found in the element handlers')
         return
+    spos, epos = sfn.positions(), efn.positions()
+    sev = _field_events(fb, sfn, fields)
+    eev = _field_events(fb, efn, fields)
     # object builders: opened from the buffer, linked to the context pushed next to them
     obj = {}        # context name -> object builder field
     for fn in fb.functions:
         if fn.cls != XMLP or not fn.has_cfg or fn.is_lambda:
             continue
-        pushes = []
-        for c in fn.all_nodes():
-            if c.get('k') == 'call' and _method_name(c.get('q', '')) == 'push_back' and _recv_field(fn, c) is not None and c.get('args'):
-                a = fn.sn(c['args'][0])
-                if a is not None and a.get('k') == 'var' and a.get('vk') == 'enumconst' and a.get('q', '').startswith(XMLP + '::context'):
-                    pushes.append((c['id'], a['name']))
-        for ev in _field_events(fb, fn, fields, depth=0):
-            if ev[0] != 'open' or not isinstance(ev[3], dict):
+        evs = _field_events(fb, fn, fields, depth=0)
+        pushes = [e for e in evs if e.kind == 'push']
+        for ev in evs:
+            if ev.kind != 'open' or not isinstance(ev.extra, dict):
                 continue
             from_buffer = any(fn.nodes[x].get('k') == 'call' and _method_name(fn.nodes[x].get('q', '')) == 'buffer'
-                              for a in ev[3].get('args', []) if a is not None for x in fn.subtree(a))
+                              for a in ev.extra.get('args', []) if a is not None for x in fn.subtree(a))
             if not from_buffer:
                 continue
-            doms = [(pid, name) for (pid, name) in pushes if fn.elem_dominates(pid, ev[2])]
+            doms = [p for p in pushes if fn.elem_dominates(p.node, ev.node)]
             if len(doms) != 1:
-                R.broken('%s: cannot link the construction of %s to exactly one pushed context' % (fn.q, ev[1]))
+                R.broken('%s: cannot link the construction of %s to exactly one pushed context' % (fn.q, ev.field))
                 continue
-            obj[doms[0][1]] = ev[1]
+            obj[doms[0].extra] = ev.field
     if not obj:
         R.broken('XMLParser: no object builder construction found')
         return
-    # ---- sub-builders per context (start_element case regions)
+    # ---- sub-builders per context (start_element regions)
     sub = {}        # context -> {field: [event]}
     for ctxname, ofield in obj.items():
         reg = sc.region(ctxname)
-        pos = sfn.positions()
-        evs = [e for e in _field_events(fb, sfn, fields) if pos.get(e[2], (None,))[0] in reg]
+        evs = [e for e in sev if spos.get(e.node, (None,))[0] in reg]
         cur = {}
         for e in evs:
-            if e[0] in ('open', 'use') and e[1] != ofield and e[1] not in obj.values():
-                cur.setdefault(e[1], []).append(e)
+            if e.kind in ('open', 'use') and e.field != ofield and e.field not in obj.values():
+                cur.setdefault(e.field, []).append(e)
         sub[ctxname] = cur
-        resets = [e for e in evs if e[0] == 'reset']
+        resets = [e for e in evs if e.kind == 'reset']
         for f, lst in cur.items():
             for other in cur:
                 if other == f:
                     continue
-                ok = all(any(r[1] == other and sfn.elem_dominates(r[2], e[2]) for r in resets) for e in lst)
-                R.check(ok, 'TS-sibling-builder-reset-first', '%s#context::%s:%s-requires-reset-of:%s' % (sfn.q, ctxname, f, other), sfn.loc(lst[0][2]),
+                ok = all(any(r.field == other and _before(sfn, r, e) for r in resets) for e in lst)
+                R.check(ok, 'TS-sibling-builder-reset-first', '%s#context::%s:%s-requires-reset-of:%s' % (sfn.q, ctxname, f, other), sfn.loc(lst[0].node),
                         'inside <%s> the sub-builder %s is created / used while %s may still be open: both append to the same buffer, the older '
                         'one must be reset() (padding written, sizes propagated) first' % (ctxname, f, other))
-    # sub-builders used in nested contexts (e.g. discussion -> comment) belong to the object whose context opened them
     # ---- end_element: close order
     for ctxname, ofield in obj.items():
         reg = ec.region(ctxname)
@@ -1686,82 +1963,76 @@ def ts_xml(fb, R):
         if not reg:
             R.bad('TS-end-closes-builders', key0 + ':closes:' + ofield, efn.site, 'end_element has no case for context %s' % ctxname)
             continue
-        pos = efn.positions()
-        evs = [e for e in _field_events(fb, efn, fields, depth=0) if pos.get(e[2], (None,))[0] in reg]
-        oreset = [e for e in evs if e[0] == 'reset' and e[1] == ofield]
+        evs = [e for e in eev if epos.get(e.node, (None,))[0] in reg]
+        oreset = [e for e in evs if e.kind == 'reset' and e.field == ofield]
         R.check(bool(oreset), 'TS-end-closes-builders', key0 + ':closes:' + ofield, efn.site,
                 'the end of <%s> does not reset %s: the next object would be built while this builder is alive' % (ctxname, ofield))
         for f in sorted(sub.get(ctxname, {})):
-            rs = [e for e in evs if e[0] == 'reset' and e[1] == f]
-            ok = bool(rs) and bool(oreset) and all(any(efn.elem_dominates(r[2], o[2]) for r in rs) for o in oreset)
+            rs = [e for e in evs if e.kind == 'reset' and e.field == f]
+            ok = bool(rs) and bool(oreset) and all(any(_before(efn, r, o) for r in rs) for o in oreset)
             R.check(ok, 'TS-end-closes-builders', key0 + ':closes:%s-before:%s' % (f, ofield), efn.site,
                     'the end of <%s> must reset the sub-builder %s before the object builder %s (its destructor writes padding and adds its size '
                     'to the parent it points to; afterwards that parent is gone)' % (ctxname, f, ofield))
-        commits = [c for c in efn.all_nodes() if c.get('k') == 'call' and c.get('q') == 'osmium::memory::Buffer::commit' and pos.get(c['id'], (None,))[0] in reg]
-        ok = bool(commits) and bool(oreset) and all(any(efn.elem_dominates(o[2], c['id']) for o in oreset) for c in commits)
+        commits = [e for e in evs if e.kind == 'commit']
+        ok = bool(commits) and bool(oreset) and all(any(_before(efn, o, c) for o in oreset) for c in commits)
         R.check(ok, 'TS-end-closes-builders', key0 + ':commit-after-close', efn.site,
                 'the end of <%s> must commit the buffer after the object builder was reset (committing an object whose padding is not yet written)' % ctxname)
     # ---- add_comment obligation
-    openers = [c for c in sfn.all_nodes() if c.get('k') == 'call' and c.get('q') == _OPENER]
+    openers = [e for e in sev if e.kind == 'opener']
     if not openers:
         R.broken('XMLParser::start_element: no call of add_comment found')
+    spushes = [e for e in sev if e.kind == 'push']
     for oc in openers:
-        pushes = []
-        for c in sfn.all_nodes():
-            if c.get('k') == 'call' and _method_name(c.get('q', '')) == 'push_back' and c.get('args'):
-                a = sfn.sn(c['args'][0])
-                if a is not None and a.get('k') == 'var' and a.get('vk') == 'enumconst' and sfn.elem_dominates(c['id'], oc['id']):
-                    pushes.append(a['name'])
+        pushes = sorted({p.extra for p in spushes if _before(sfn, p, oc)})
         if len(pushes) != 1:
             R.broken('XMLParser::start_element: add_comment is not paired with exactly one pushed context')
             continue
         X = pushes[0]
-        gate = {sfn.expr(cn) for (cn, sense, _b) in guards(sfn, oc['id']) if sense and 'read_types' in sfn.expr(cn)}
+        closers = [e for e in eev if e.kind == 'closer']
+        gate = _gate_texts(sfn, oc)
         reg = ec.region(X)
         key = '%s#context::%s:add_comment' % (efn.q, X)
         if not reg:
             R.bad('TS-comment-obligation-closed', key, efn.site, 'end_element has no case for context %s' % X)
             continue
-        closers = {c['id'] for c in efn.all_nodes() if c.get('k') == 'call' and c.get('q') == _CLOSER}
         pruned = set()
         for b in reg:
             blk = efn.blocks[b]
             if 'cond' in blk and len(blk['succs']) == 2 and efn.expr(blk['cond']) in gate:
                 pruned.add((b, 1))
         # a closer guarded by an "is still open" test: the other edge of that test needs no closer
-        for cid in closers:
-            for (cn, sense, b) in guards(efn, cid):
-                if b in reg and efn.expr(cn) not in gate:
+        for ce in closers:
+            for (cn, sense, b) in guards(efn, ce.node):
+                if b in reg and efn.expr(cn) not in gate and _is_open_test(efn, cn, fields):
                     pruned.add((b, 1 if sense else 0))
-        w = _region_escape(efn, ec.label_block[X], reg, closers, pruned)
-        R.check(w is None, 'TS-comment-obligation-closed', key, efn.loc(efn.blocks[ec.label_block[X]]['elems'][0]) if efn.blocks[ec.label_block[X]]['elems'] else efn.site,
+        w = None
+        for st_b in ec.starts(X):
+            w = w or _region_escape(efn, st_b, reg, {ce.node for ce in closers}, pruned)
+        lb = efn.blocks[ec.label_block[X]]
+        R.check(w is None, 'TS-comment-obligation-closed', key, efn.loc(lb['elems'][0]) if lb['elems'] else efn.site,
                 'start_element calls add_comment() when it pushes context::%s, but the end of that element can be reached without add_comment_text() '
                 '(e.g. <comment/> without <text>): the comment keeps text_size 0 and no padding, traversal of the delivered changeset leaves the item' % X)
         # closer runs at most once per opener
-        for c in efn.all_nodes():
-            if c.get('k') != 'call' or c.get('q') != _CLOSER:
-                continue
-            ys = ec.case_of(c['id'])
+        for ce in closers:
+            ys = ec.case_of(ce.node)
             if not ys:
-                R.broken('XMLParser::end_element: add_comment_text outside the context switch')
+                R.broken('XMLParser::end_element: add_comment_text outside the context dispatch')
                 continue
             for Y in ys:
-                state_guard = any(efn.expr(cn) not in gate for (cn, sense, b) in guards(efn, c['id']) if b in ec.region(Y))
+                state_guard = any(efn.expr(cn) not in gate and _is_open_test(efn, cn, fields)
+                                  for (cn, sense, b) in guards(efn, ce.node) if b in ec.region(Y))
                 push_guard = False
-                for pc in sfn.all_nodes():
-                    if pc.get('k') == 'call' and _method_name(pc.get('q', '')) == 'push_back' and pc.get('args'):
-                        a = sfn.sn(pc['args'][0])
-                        if a is not None and a.get('name') == Y and a.get('vk') == 'enumconst':
-                            for (cn, sense, b) in guards(sfn, pc['id']):
-                                if any(sfn.nodes[x].get('k') == 'member' and sfn.nodes[x].get('field') and sfn.nodes[x]['name'] != 'm_context_stack'
-                                       and sfn.is_this_member(x) for x in sfn.subtree(cn)) and 'read_types' not in sfn.expr(cn):
-                                    push_guard = True
-                R.check(Y == X or state_guard or push_guard, 'TS-comment-closer-once', '%s#context::%s:add_comment_text' % (efn.q, Y), efn.loc(c['id']),
+                for pe_ in spushes:
+                    if pe_.extra == Y and pe_.inner is None:
+                        for (cn, sense, b) in guards(sfn, pe_.node):
+                            if any(sfn.nodes[x].get('k') == 'member' and sfn.nodes[x].get('field') and sfn.nodes[x]['name'] != 'm_context_stack'
+                                   and sfn.is_this_member(x) for x in sfn.subtree(cn)) and 'read_types' not in sfn.expr(cn):
+                                push_guard = True
+                R.check(Y == X or state_guard or push_guard, 'TS-comment-closer-once', '%s#context::%s:add_comment_text' % (efn.q, Y), efn.loc(ce.node),
                         'add_comment_text() runs at the end of every <%s> element, but the obligation was opened once by the enclosing <%s>: a second <%s> '
                         'calls it with no open comment (null dereference), none leaves the comment open' % (Y, X, Y))
-    for c in sfn.all_nodes():
-        if c.get('k') == 'call' and c.get('q') == _CLOSER:
-            R.broken('XMLParser::start_element calls add_comment_text: unknown protocol shape')
+    if any(e.kind == 'closer' for e in sev):
+        R.broken('XMLParser::start_element calls add_comment_text: unknown protocol shape')
 
 
 def _region_escape(fn, start, region, barrier_nodes, pruned_edges):
@@ -1782,7 +2053,9 @@ def _region_escape(fn, start, region, barrier_nodes, pruned_edges):
         blk = fn.blocks[b]
         if blk.get('termcls') == 'BreakStmt':
             return path
-        ends_in_throw = any(fn.nodes[e].get('k') == 'throw' for e in blk['elems'])
+        ends_in_throw = any(fn.nodes[e].get('k') == 'throw' or (fn.nodes[e].get('k') == 'call' and (fn.nodes[e].get('q') or fn.nodes[e].get('name') or '')
+                                                                     in ('__assert_fail', 'abort', 'std::abort', 'std::terminate', '__builtin_unreachable'))
+                            for e in blk['elems'])
         if ends_in_throw:
             continue
         for idx, s in enumerate(blk['succs']):
@@ -1907,6 +2180,7 @@ def _selftest(fb, R):
         g7_expat(fb, R, esc)
         g8_throw_types(fb, R)
         g9_utf8(fb, R)
+        nul_layout(fb, R)
         a1_who_may_abort(fb, R)
     finally:
         _SELFTEST[0] = False
@@ -1917,7 +2191,8 @@ SELFTESTS = [(r, 'c03_guards.cpp', _selftest) for r in (
     'G4-blob-sizes-bounded', 'G5-o5m-section-end-checked', 'G5-o5m-reference-table-bounds', 'G5-o5m-bytes-available', 'G5-o5m-cursor-deref-end-checked',
     'G6-member-type-range-checked', 'G7-expat-callbacks-contained', 'G7-expat-exception-stored-and-parser-stopped',
     'G7-expat-entity-declarations-rejected', 'G7-expat-parse-error-rethrows-stored-first', 'G8-throws-std-exception',
-    'G9-utf8-length-test-before-continuation', 'G9-utf8-case-reads-its-length', 'A1-who-may-abort')]
+    'G9-utf8-length-test-before-continuation', 'G9-utf8-case-reads-its-length', 'NUL-tag-strings-have-no-interior-nul',
+    'A1-who-may-abort')]
 
 
 def _selftest_xml(fb, R):
@@ -1928,4 +2203,5 @@ def _selftest_xml(fb, R):
         _SELFTEST[0] = False
 
 
-SELFTESTS += [('TS-sibling-builder-reset-first', 'c03_xml.cpp', _selftest_xml), ('TS-end-closes-builders', 'c03_xml.cpp', _selftest_xml)]
+SELFTESTS += [(r, 'c03_xml.cpp', _selftest_xml) for r in ('TS-sibling-builder-reset-first', 'TS-end-closes-builders',
+                                                              'TS-comment-obligation-closed', 'TS-comment-closer-once')]
